@@ -345,3 +345,58 @@ def finish_cuts(ctx, res) -> None:
         res.failures.append(Failure(kind, f"scenario {sc['name']}: finish() {k} loop iterations after start() leaves {bad} "
                                     f"(every message must be in exactly one place, none marked as processing: the consumer handed nothing out); "
                                     f"{len(problems)} of the cut points fail", {"redis_finish_cut": {"scenario": sc, "k": k}}, None))
+
+
+def consume_cuts(ctx, res) -> None:
+    """consume() of a consumer whose local buffer holds a message that has expired there, cancelled after k loop iterations
+    (the runner cancels the loop that awaits consume() when the worker is told to stop): afterwards no message may be marked
+    as processing without being in the buffer or in the caller's hands."""
+    import repid.connections.redis.utils as ru
+    from ..world import key
+    from ..pyparams import mk_params
+    from ..clock import CLOCK
+    orig = ru.random.random
+    ru.random.random = lambda: 0.8
+    problems = []
+
+    async def main(loop):
+        loop.set_exception_handler(lambda l, c: None)
+        for k in range(0, ctx.scale(20, 40)):
+            w = redisrun.RedisWorld([1])
+            now = CLOCK.now_us()
+            await w.mb.enqueue(key("m1", "t1", "q1", 5), "p1", mk_params(ts=now, ttl=200_000))
+            await w.mb.enqueue(key("m2", "t1", "q1", 5), "p2", mk_params(ts=now))
+            await w.add_consumer(1, 1, 0, None, 5)
+            await asyncio.sleep(0.5)              # both are in the buffer; m1 has expired there
+            t = asyncio.ensure_future(w.consumers[1].consume())
+            for _ in range(k):
+                await asyncio.sleep(0)
+            got = None
+            if t.done():
+                got = t.result()
+            else:
+                t.cancel()
+                try:
+                    await t
+                except asyncio.CancelledError:
+                    pass
+            for _ in range(40):
+                await asyncio.sleep(0)
+            pl, buf = w.places(), w.buffers()[1]
+            held = [redisrun.num(got[0].id_)] if got else []
+            res.count("redis_consume_cut_runs")
+            res.add_case(f"redis_consume_cut:{k}:{held}:{buf}", True)
+            stuck = [i for i, p in pl.items() if [x[0] for x in p] == ["processing"] and i not in buf and i not in held]
+            lost = [i for i in (1, 2) if len(pl.get(i, [])) != 1]
+            if stuck or lost:
+                problems.append((k, stuck, lost, {i: [x[0] for x in p] for i, p in pl.items()}))
+            await w.consumers[1].finish()
+    try:
+        run_virtual(main)
+    finally:
+        ru.random.random = orig
+    if problems:
+        k, stuck, lost, pl = problems[0]
+        res.failures.append(Failure("redis_consume_cut_leaves_message_in_flight", f"consume() cancelled after {k} loop iterations while it was "
+                                    f"dead-lettering a message that expired in the buffer: places {pl}, marked as processing and held by nobody: {stuck}, "
+                                    f"not in exactly one place: {lost}", {"redis_consume_cut": {"k": k}}, None))
